@@ -184,7 +184,7 @@ Proof.
   induction s as [|c s IH]; intros H; [reflexivity|].
   cbn [forallb] in H. apply andb_true_iff in H. destruct H as [Hc Hs].
   apply andb_true_iff in Hc. destruct Hc as [_ Hc].
-  cbn [flat_map]. rewrite map_app, IH by exact Hs.
+  specialize (IH Hs). cbn [flat_map]. rewrite map_app. unfold unit in *. rewrite IH.
   unfold units_of. destruct (short_escape c); [reflexivity|].
   destruct ((32 <=? c) && (c <=? 126)); [reflexivity|]. rewrite Hc. reflexivity.
 Qed.
@@ -212,4 +212,146 @@ Proof.
   intros j5 s rest H. unfold pstring.
   rewrite punits_escape by (eapply str_ok_cp; exact H).
   rewrite decode_units_ok by exact H. reflexivity.
+Qed.
+
+(* ================================================================== whitespace, tokens *)
+
+Lemma skip_ws_app : forall ws s, forallb is_ws ws = true -> skip_ws (ws ++ s) = skip_ws s.
+Proof.
+  induction ws as [|c ws IH]; intros s H; [reflexivity|].
+  cbn [forallb] in H. apply andb_true_iff in H. destruct H as [Hc Hw].
+  cbn [app skip_ws]. rewrite Hc. apply IH. exact Hw.
+Qed.
+
+Lemma skip_ws_head : forall c r, is_ws c = false -> skip_ws (c :: r) = c :: r.
+Proof. intros c r H. cbn [skip_ws]. rewrite H. reflexivity. Qed.
+
+Lemma indent_ws : forall n, forallb is_ws (indent n) = true.
+Proof. intros n. unfold indent. induction (4 * n)%nat as [|k IH]; [reflexivity|]. cbn [repeat forallb]. rewrite IH. reflexivity. Qed.
+Lemma sep_ws : forall b n, forallb is_ws (sep b n) = true.
+Proof. intros [|] n; [reflexivity|]. unfold sep, nl. cbn [forallb]. rewrite indent_ws. reflexivity. Qed.
+
+Lemma ws_not_num : forall c, is_ws c = true -> is_numchar c = false.
+Proof.
+  intros c. unfold is_ws.
+  destruct (Z.eqb_spec c 32); [subst; reflexivity|].
+  destruct (Z.eqb_spec c 10); [subst; reflexivity|].
+  destruct (Z.eqb_spec c 13); [subst; reflexivity|].
+  destruct (Z.eqb_spec c 9); [subst; reflexivity|]. discriminate.
+Qed.
+
+(* the text after a value must not continue a number token *)
+Definition follow_ok (rest : list Z) : bool :=
+  match rest with [] => true | c :: _ => negb (is_numchar c) end.
+
+Lemma follow_ws : forall ws c rest, forallb is_ws ws = true -> is_numchar c = false ->
+  follow_ok (ws ++ c :: rest) = true.
+Proof.
+  intros [|w ws] c rest H Hc; cbn [app follow_ok].
+  - rewrite Hc. reflexivity.
+  - cbn [forallb] in H. apply andb_true_iff in H. destruct H as [Hw _]. rewrite (ws_not_num _ Hw). reflexivity.
+Qed.
+
+Lemma span_num_tok : forall t rest, forallb is_numchar t = true -> follow_ok rest = true ->
+  span_num (t ++ rest) = (t, rest).
+Proof.
+  induction t as [|c t IH]; intros rest Ht Hf.
+  - cbn [app]. destruct rest as [|c r]; [reflexivity|].
+    cbn [follow_ok] in Hf. apply negb_true_iff in Hf. cbn [span_num]. rewrite Hf. reflexivity.
+  - cbn [forallb] in Ht. apply andb_true_iff in Ht. destruct Ht as [Hc Ht].
+    cbn [app span_num]. rewrite Hc, IH by assumption. reflexivity.
+Qed.
+
+Lemma pnum_tok : forall t rest, num_ok t = true -> follow_ok rest = true -> pnum (t ++ rest) = Some (JNum t, rest).
+Proof.
+  intros t rest H Hf. unfold pnum. pose proof H as H'. unfold num_ok in H'. apply andb_true_iff in H'. destruct H' as [Hc _].
+  rewrite span_num_tok by assumption. rewrite H. reflexivity.
+Qed.
+
+Lemma num_ok_head : forall t, num_ok t = true -> exists c r, t = c :: r /\ is_numchar c = true.
+Proof.
+  intros [|c r] H; [discriminate|]. exists c, r. split; [reflexivity|].
+  unfold num_ok in H. apply andb_true_iff in H. destruct H as [H _]. cbn [forallb] in H.
+  apply andb_true_iff in H. tauto.
+Qed.
+
+Lemma num_not_ws : forall c, is_numchar c = true -> is_ws c = false.
+Proof. intros c H. destruct (is_ws c) eqn:E; [|reflexivity]. rewrite (ws_not_num _ E) in H. discriminate. Qed.
+
+Lemma num_not_close : forall c, is_numchar c = true -> (c =? 93) = false /\ (c =? 125) = false.
+Proof.
+  intros c H. split.
+  - destruct (Z.eqb_spec c 93); [subst; discriminate|reflexivity].
+  - destruct (Z.eqb_spec c 125); [subst; discriminate|reflexivity].
+Qed.
+
+(* ================================================================== one step of the reader *)
+
+Lemma pval_num : forall j5 f ws c r, forallb is_ws ws = true -> is_numchar c = true ->
+  pval j5 (S f) (ws ++ c :: r) = pnum (c :: r).
+Proof.
+  intros. cbn [pval]. rewrite skip_ws_app by assumption. rewrite skip_ws_head by (apply num_not_ws; assumption).
+  rewrite H0. reflexivity.
+Qed.
+
+Lemma pval_str : forall j5 f ws r, forallb is_ws ws = true ->
+  pval j5 (S f) (ws ++ 34 :: r) = match pstring j5 r with Some (str, r') => Some (JStr str, r') | None => None end.
+Proof. intros. cbn [pval]. rewrite skip_ws_app by assumption. reflexivity. Qed.
+
+Lemma pval_lit : forall j5 f ws p v rest, forallb is_ws ws = true ->
+  (p, v) = (lit_null, JNull) \/ (p, v) = (lit_true, JBool true) \/ (p, v) = (lit_false, JBool false) ->
+  pval j5 (S f) (ws ++ p ++ rest) = Some (v, rest).
+Proof.
+  intros j5 f ws p v rest H Hp. cbn [pval]. rewrite skip_ws_app by assumption.
+  destruct Hp as [Hp|[Hp|Hp]]; inversion Hp; subst; reflexivity.
+Qed.
+
+Lemma pval_arr : forall j5 f ws r, forallb is_ws ws = true ->
+  pval j5 (S f) (ws ++ 91 :: r) =
+  match skip_ws r with
+  | [] => None
+  | c2 :: r2 => if c2 =? 93 then Some (JArr [], r2)
+                else match pelems j5 f r with Some (l, r') => Some (JArr l, r') | None => None end
+  end.
+Proof. intros. cbn [pval]. rewrite skip_ws_app by assumption. reflexivity. Qed.
+
+Lemma pval_obj : forall j5 f ws r, forallb is_ws ws = true ->
+  pval j5 (S f) (ws ++ 123 :: r) =
+  match skip_ws r with
+  | [] => None
+  | c2 :: r2 => if c2 =? 125 then Some (JObj [], r2)
+                else match pmembers j5 f r with Some (l, r') => Some (JObj l, r') | None => None end
+  end.
+Proof. intros. cbn [pval]. rewrite skip_ws_app by assumption. reflexivity. Qed.
+
+Lemma pelems_S : forall j5 f s, pelems j5 (S f) s =
+  match pval j5 f s with
+  | None => None
+  | Some (v, r) =>
+      match skip_ws r with
+      | [] => None
+      | c :: r' =>
+          if c =? 44 then match pelems j5 f r' with Some (l, r'') => Some (v :: l, r'') | None => None end
+          else if c =? 93 then Some ([v], r') else None
+      end
+  end.
+Proof. reflexivity. Qed.
+
+Lemma pmembers_key : forall j5 f ws k x rest, forallb is_ws ws = true -> str_okb j5 k = true ->
+  pmembers j5 (S f) (ws ++ jstring k ++ [58; 32] ++ x ++ rest) =
+  match pval j5 f (32 :: x ++ rest) with
+  | None => None
+  | Some (v, r3) =>
+      match skip_ws r3 with
+      | [] => None
+      | c :: r4 =>
+          if c =? 44 then match pmembers j5 f r4 with Some (l, r5) => Some ((k, v) :: l, r5) | None => None end
+          else if c =? 125 then Some ([(k, v)], r4) else None
+      end
+  end.
+Proof.
+  intros. cbn [pmembers]. rewrite skip_ws_app by assumption.
+  unfold jstring. cbn [app skip_ws]. change (is_ws 34) with false. cbv iota. change (34 =? 34) with true. cbv iota.
+  rewrite <- app_assoc. cbn [app]. rewrite pstring_escape by assumption.
+  cbn [skip_ws]. change (is_ws 58) with false. cbv iota. change (58 =? 58) with true. cbv iota. reflexivity.
 Qed.
